@@ -127,6 +127,7 @@ class RealRun:
         self.regs = []  # handle -> ("rf"|"raw", object)
         self.futs = {}  # (a, i) -> Future object used by the program (kept: caching is observable)
         self.subs, self.snaps, self.reads = [], [], []
+        self.reserved = {}  # flush number -> registers reserved for the assembler (executed runs only)
         self.err = None
         self.exec_err = None
         self.first_exc = None
@@ -297,12 +298,23 @@ class RealRun:
             return
         self.subs.append([canon_cmd(c) for c in proto.commands])
         if self.execute:
+            import netqasm.sdk.builder as _B
+            orig = _B.assemble_subroutine
+
+            def recording(pre, *a, **kw):  # what the builder reserves for the assembler at THIS flush
+                rr = kw.get("reserved_registers")
+                self.reserved[len(self.subs) - 1] = None if rr is None else sorted(
+                    [r.name.name, r.index] for r in rr)
+                return orig(pre, *a, **kw)
+            _B.assemble_subroutine = recording
             try:
                 self.conn.commit_protosubroutine(proto)
             except Exception as e:  # the controller (or the assembler) rejected the subroutine
                 self.exec_err = "%s: %s" % (type(e).__name__, str(e)[:200])
                 self.b._reset()
                 raise
+            finally:
+                _B.assemble_subroutine = orig
         else:
             self.b._reset()
 
@@ -1160,6 +1172,14 @@ def compare_syntactic(prog, real, model):
         i = next((k for k, (x, y) in enumerate(zip(real.snaps, msnaps)) if x != y), -1)
         return {"what": "memory-manager snapshot after step %d" % i,
                 "real": real.snaps[i] if i >= 0 else len(real.snaps), "model": msnaps[i] if i >= 0 else len(msnaps)}
+    # the registers reserved for the assembler at flush k are the model's active registers at that flush
+    # (`reservedOf` of Props/C05Chain2.lean); only executed runs go through `subrt_compile_subroutine`
+    flush_steps = [i for i, t in enumerate(prog) if t["k"] == "flush"]
+    for k, rr in sorted(getattr(real, "reserved", {}).items()):
+        if k < len(flush_steps) and flush_steps[k] < len(msnaps):
+            want = [["R", i] for i in msnaps[flush_steps[k]]["active"]]
+            if rr != want:
+                return {"what": "registers reserved for the assembler at flush %d" % k, "real": rr, "model": want}
     return None
 
 
